@@ -347,12 +347,14 @@ func runScenario(sc *Scenario, r *zsimrt.Rand, replay []zsimrt.Decision) *Outcom
 	}
 
 	passA := func() {
+		zsimrt.SetMapSeed(sc.MapSeed*3 + 1) // each pass iterates maps in its own order
 		for f := 0; f < total; f++ {
 			refA[f], soloSteps[f] = w.soloOp(taskOf[f], opOf[f])
 			out.SoloSteps += soloSteps[f]
 		}
 	}
 	passB := func() {
+		zsimrt.SetMapSeed(sc.MapSeed*5 + 2)
 		seen := make([]bool, total)
 		for _, f := range sc.RefOrder {
 			if f < 0 || f >= total || seen[f] {
@@ -369,6 +371,7 @@ func runScenario(sc *Scenario, r *zsimrt.Rand, replay []zsimrt.Decision) *Outcom
 	}
 
 	sim := func() {
+		zsimrt.SetMapSeed(sc.MapSeed)
 		// shared pool
 		n := len(sc.Shared)
 		w.shared = make([]*expr.Expression, n)
